@@ -83,6 +83,41 @@ func c03XEnv(variant int) *C03X {
 	return e
 }
 
+// ---------------------------------------------------------------- third environment type: one NAME that is both a method and another member
+// (a method shadowing a field promoted from an embedded struct; a declared map type with a method that also holds a key of that
+// name).  The checker types a call of such a name by the METHOD's signature (types table, methodType); the VM has to resolve it the
+// same way.
+type C03Emb struct {
+	Label string
+	Count int
+	Plain int
+}
+
+type C03ShObj struct{ C03Emb }
+
+func (C03ShObj) Label() string   { return "obj" }
+func (C03ShObj) Count(n int) int { return n * 10 }
+
+type C03Sh struct {
+	C03Emb
+	I   int
+	N   int
+	Obj C03ShObj
+	PO  *C03ShObj
+}
+
+func (C03Sh) Label() string   { return "env" }
+func (C03Sh) Count(n int) int { return n + 100 }
+
+type C03ShMap map[string]interface{}
+
+func (C03ShMap) Double(i int) int { return 2 * i }
+func (C03ShMap) Name() string     { return "m" }
+
+var c03ShProbes = []string{`Label() + "!"`, `Count(2) + 1`, `Obj.Label() + "!"`, `Obj.Count(N) == 20`, `PO.Label() + "?"`, `PO.Count(I) + N`, `Label() == "env"`, `Count(I) > N`,
+	`[Label(), Obj.Label()]`, `Count(len(Label())) + 1`, `Plain + 1`, `Obj.Plain + I`, `len(Label()) + Count(1)`, `Obj.Count(Count(1)) + 1`}
+var c03ShMapProbes = []string{`Double(2) + 1`, `1 + Double(1)`, `Name() + "!"`, `len(Name())`, `Double(Double(1)) == 4`, `[Double(2)][0] + 1`, `Double(len(Name())) * 2`}
+
 var c03Probes = []string{
 	`Concat(1, "a")`, `Inc(F64 + 1)`, `Inc("a" + "b")`, `Inc(I8 + I8)`, `Half(I + I)`, `Half(I + 1)`, `Inc(-F64)`, `Inc(I + 1)`, `Inc(1 + 2)`, `Half(1)`, `Half(1 / 2)`,
 	`M == 1`, `M == N`, `M + 1`, `M < N`, `-M`, `M in AI`, `I == 1`,
@@ -223,6 +258,15 @@ func c03Member(t reflect.Type, name string) (reflect.Type, bool) {
 	}
 	if st.Kind() == reflect.Struct {
 		if f, ok := st.FieldByName(name); ok && f.PkgPath == "" {
+			// Go's selector rule takes the shallowest member: a method declared ABOVE the embedded struct that promotes the field
+			// shadows the field (the embedded type itself does not have the method)
+			if len(f.Index) > 1 {
+				if m, ok := c03MethodOf(t, name); ok {
+					if _, deeper := c03MethodOf(st.Field(f.Index[0]).Type, name); !deeper {
+						return c03FuncNoRecv(m.Type), true
+					}
+				}
+			}
 			return f.Type, true
 		}
 	}
@@ -235,6 +279,16 @@ func c03Member(t reflect.Type, name string) (reflect.Type, bool) {
 		}
 	}
 	return nil, false
+}
+
+func c03MethodOf(t reflect.Type, name string) (reflect.Method, bool) {
+	if m, ok := t.MethodByName(name); ok {
+		return m, true
+	}
+	if t.Kind() != reflect.Ptr && t.Kind() != reflect.Interface {
+		return reflect.PtrTo(t).MethodByName(name)
+	}
+	return reflect.Method{}, false
 }
 
 func c03IsConstInt(n ast.Node) bool {
@@ -1501,6 +1555,19 @@ func runC03() {
 		for _, s := range []string{"PtrM(1)", "PtrM(I) + 1", "Add(PtrM(1), 2)", "[PtrM(2)]", "B ? PtrM(1) : 0", "Add(1, 2)", "St.Get()", "Inc(I) + I8", "P.Get() + 1"} {
 			push(item{src: s, w: wU, fam: "pointer sample, then value sample"})
 			push(item{src: s, w: wV, fam: "pointer sample, then value sample"})
+		}
+	}
+	// one name that is both a method and another member (promoted field / map key): typed as the method, resolved as the method
+	{
+		sh := C03Sh{C03Emb: C03Emb{Label: "field", Count: 7, Plain: 1}, I: 2, N: 2, Obj: C03ShObj{C03Emb{Label: "f2", Count: 8, Plain: 3}}, PO: &C03ShObj{C03Emb{Label: "f3", Count: 9, Plain: 4}}}
+		wS := &c03World{name: "C03Sh", sample: sh, envT: reflect.TypeOf(sh), envs: []interface{}{sh, &sh}, twins: []interface{}{sh, &sh}}
+		for _, s := range c03ShProbes {
+			push(item{src: s, w: wS, fam: "method shadowing another member"})
+		}
+		sm := C03ShMap{"Double": "a string entry", "Name": 5, "I": 1}
+		wM := &c03World{name: "C03ShMap", sample: sm, envT: reflect.TypeOf(sm), envs: []interface{}{sm}, twins: []interface{}{sm}}
+		for _, s := range c03ShMapProbes {
+			push(item{src: s, w: wM, fam: "method shadowing another member"})
 		}
 	}
 	nOrig := len(items)
